@@ -95,3 +95,56 @@ func init() {
 		},
 	}...)
 }
+
+func init() {
+	scan := func(name string, loop int, list, start string) trSpec {
+		return trSpec{
+			Name: name, Props: []string{"C20"},
+			File: "tools/simulator/node/stats.go", Func: "upkeepStatsBuilder.UpkeepStats", Loop: loop,
+			Atoms: []atom{{list + "[j] > eligible[i]", "later", "bool"}},
+			Binders: map[string]map[string]string{
+				"a, _ := new(big.Int).SetString(" + list + "[j], 10)": {}, "b, _ := new(big.Int).SetString(eligible[i], 10)": {},
+			},
+			Actions: map[string]int{
+				"a, _ := new(big.Int).SetString(" + list + "[j], 10)": 1, "b, _ := new(big.Int).SetString(eligible[i], 10)": 2,
+				"diff = int(new(big.Int).Sub(a, b).Int64())": 3, start + " = j + 1": 4,
+			},
+		}
+	}
+	trSpecs = append(trSpecs, []trSpec{
+		{
+			Name: "sim_stats_body", Props: []string{"C20"},
+			File: "tools/simulator/node/stats.go", Func: "upkeepStatsBuilder.UpkeepStats", Loop: 1,
+			Atoms: []atom{
+				{"pStartAt", "p_start", "Z"}, {"len(performed)", "n_performed", "Z"},
+				{"cStartAt", "c_start", "Z"}, {"len(checked)", "n_checked", "Z"},
+				{"p.diff", "p_diff", "Z"}, {"c.diff", "c_diff", "Z"},
+				{"pDelay < 0", "p_first", "bool"}, {"cDelay < 0", "c_first", "bool"},
+			},
+			Binders: map[string]map[string]string{
+				"diff := -1": {},
+				"for j := pStartAt; j < len(performed); j++ { }": {"diff": "p.diff"},
+				"for j := cStartAt; j < len(checked); j++ { }":   {"diff": "c.diff"},
+			},
+			Actions: map[string]int{
+				"for j := pStartAt; j < len(performed); j++ { }": 1, "pDelay = float64(diff)": 2, "pDelay = (float64(diff) + pDelay) / 2": 3,
+				"for j := cStartAt; j < len(checked); j++ { }": 4, "cDelay = float64(diff)": 5, "cDelay = (float64(diff) + cDelay) / 2": 6,
+			},
+		},
+		scan("sim_stats_scan_performed", 2, "performed", "pStartAt"),
+		scan("sim_stats_scan_checked", 3, "checked", "cStartAt"),
+		{
+			Name: "sim_upkeep_ids_body", Props: []string{"C20"},
+			File: "tools/simulator/node/stats.go", Func: "upkeepStatsBuilder.UpkeepIDs", Loop: 1,
+			Atoms: []atom{{"found", "found", "bool"}},
+			Binders: map[string]map[string]string{"var found bool": {}, "srcUpkeepID := ocr2keepers.UpkeepIdentifier(upkeep.UpkeepID)": {}},
+			Actions: map[string]int{"for _, upkeepID := range allIDs { }": 1, "allIDs = append(allIDs, srcUpkeepID.String())": 2},
+		},
+		{
+			Name: "sim_upkeep_ids_scan", Props: []string{"C20"},
+			File: "tools/simulator/node/stats.go", Func: "upkeepStatsBuilder.UpkeepIDs", Loop: 2,
+			Atoms:   []atom{{"upkeepID == srcUpkeepID.String()", "same", "bool"}},
+			Actions: map[string]int{"found = true": 1},
+		},
+	}...)
+}
